@@ -50,6 +50,7 @@ def run(ck):
     nc.report(ck, fails, corr)
     ck.assumptions = ["list-level lazy transform model (Transform.v/Inverse.v/NTTInst.v) vs nfl::poly::ntt_pow_phi / invntt_pow_invphi, all stored words compared",
                       "SIMD configurations restricted to those the build accepts (n>=8, n>=16 for 16-bit AVX2)"]
+    vf.run_deps(ck, ['C03', 'C17'])
     return ck.finish(trusted=["coqc 8.16.1 kernel, vm_compute", "translator dump_params.cpp", "ExtrOcamlBasic extraction + ocaml/driver.ml (zarith I/O and independent spec side)",
                               "h_ntt.cpp harness, g++ 12.2"], extra_cov={"backends": sorted({b for b, _ in exes}), "params_sha": info})
 
